@@ -293,6 +293,26 @@ pub const ENUM_ALPHABET: [Sym; 14] = [
     Sym::Finish(StreamSel::First),
 ];
 
+/// second enumeration alphabet: two streams, two keys, run after a fixed prefix that connects
+/// and creates two streams
+pub const ENUM_ALPHABET_B: [Sym; 14] = [
+    Sym::Publish(StreamSel::First, ArgForm::Good),
+    Sym::Publish(StreamSel::Last, ArgForm::OtherKey),
+    Sym::Play(StreamSel::Last, ArgForm::Good),
+    Sym::Play(StreamSel::First, ArgForm::OtherKey),
+    Sym::Close(StreamSel::First),
+    Sym::Delete(StreamSel::Last),
+    Sym::Audio(StreamSel::First),
+    Sym::Audio(StreamSel::Last),
+    Sym::Meta(StreamSel::Last, true),
+    Sym::Accept(IdSel::Oldest),
+    Sym::Accept(IdSel::Newest),
+    Sym::Reject(IdSel::Oldest),
+    Sym::Finish(StreamSel::Last),
+    Sym::CreateStream,
+];
+pub const PREFIX_B: [Sym; 4] = [Sym::ConnectGood, Sym::Accept(IdSel::Oldest), Sym::CreateStream, Sym::CreateStream];
+
 pub fn random_sym(rng: &mut Rng, m: &Model) -> Sym {
     let ss = |rng: &mut Rng| *rng.pick(&[StreamSel::First, StreamSel::First, StreamSel::Last, StreamSel::Last, StreamSel::Deleted, StreamSel::Never, StreamSel::Zero]);
     // bias: make progress likely (connect, accept) but keep rare orders frequent
@@ -432,8 +452,8 @@ impl Check for C09 {
         "C09"
     }
     fn plan(&self, tier: Tier) -> Plan {
-        let mut p = Plan::new(196 + tier.pick(300_000, 30_000_000), tier.pick(35.0, 480.0));
-        p.mandatory = 196;
+        let mut p = Plan::new(392 + tier.pick(300_000, 30_000_000), tier.pick(35.0, 480.0));
+        p.mandatory = 392;
         p.cpu_budget_s = 120.0;
         p
     }
@@ -464,6 +484,34 @@ impl Check for C09 {
             out.count("enumerated_sequences", n);
             return;
         }
+        if k < 392 {
+            // second alphabet (two streams, two keys) after a fixed connecting prefix; one
+            // symbol shorter than the first enumeration
+            let l = Self::enum_len(tier) - 1;
+            let k = k - 196;
+            let a = (k / 14) as usize;
+            let b = (k % 14) as usize;
+            let rest = l - 2;
+            let total = 14usize.pow(rest as u32);
+            let mut n = 0u64;
+            for code in 0..total {
+                let mut seq: Vec<Sym> = PREFIX_B.to_vec();
+                seq.push(ENUM_ALPHABET_B[a]);
+                seq.push(ENUM_ALPHABET_B[b]);
+                let mut c = code;
+                for _ in 0..rest {
+                    seq.push(ENUM_ALPHABET_B[c % 14]);
+                    c /= 14;
+                }
+                let mut it = |i: usize, _m: &Model, _r: &mut Rng| seq.get(i).cloned();
+                if !run_history(&mut it, rng, out) {
+                    return;
+                }
+                n += 1;
+            }
+            out.count("enumerated_sequences_two_streams", n);
+            return;
+        }
         let len = match rng.below(4) {
             0 => rng.usize(5, 12),
             1 => rng.usize(40, 80),
@@ -473,7 +521,7 @@ impl Check for C09 {
         run_history(&mut it, rng, out);
     }
     fn rule(&self) -> String {
-        "histories over peer messages {connect (good / no app / non-object), createStream, publish and play (good, other key, too few, ill-typed key, bad mode, ill-typed mode; on the first, last, a deleted, a never-created stream id and stream 0), closeStream/deleteStream (same stream choices, or no argument), audio, video, @setDataFrame+onMetaData (well formed or not), other data, ping request, unknown command} encoded by the independent encoder, and application calls {accept/reject with the oldest, newest, an already-used and a never-issued id; send audio/video/metadata; finish_playing; ping}. Random walks of 5-80 steps, one third of the steps biased towards protocol progress, the rest uniform (rare orders: commands before connect, re-publish after close, second publisher, media on closed streams, second connect). Bounded exhaustive: all sequences of length 5 (thorough 6) over a 14-symbol reduced alphabet. After every step events, decoded responses and Ok/Err are compared with model::server. distinct = hash of the (model state class, symbol) sequence.".to_string()
+        "histories over peer messages {connect (good / no app / non-object), createStream, publish and play (good, other key, too few, ill-typed key, bad mode, ill-typed mode; on the first, last, a deleted, a never-created stream id and stream 0), closeStream/deleteStream (same stream choices, or no argument), audio, video, @setDataFrame+onMetaData (well formed or not), other data, ping request, unknown command} encoded by the independent encoder, and application calls {accept/reject with the oldest, newest, an already-used and a never-issued id; send audio/video/metadata; finish_playing; ping}. Random walks of 5-80 steps, one third of the steps biased towards protocol progress, the rest uniform (rare orders: commands before connect, re-publish after close, second publisher, media on closed streams, second connect). Bounded exhaustive: all sequences of length 5 (thorough 6) over a 14-symbol reduced alphabet, and all sequences of length 4 (thorough 5) over a second 14-symbol alphabet (two streams, two keys, accept/reject of oldest and newest) run after the fixed prefix connect, accept, createStream, createStream. After every step events, decoded responses and Ok/Err are compared with model::server. distinct = hash of the (model state class, symbol) sequence.".to_string()
     }
     fn assumptions(&self) -> Vec<String> {
         vec![
@@ -487,11 +535,12 @@ impl Check for C09 {
         vec![
             "histories_agreeing".into(),
             "enumerated_sequences".into(),
+            "enumerated_sequences_two_streams".into(),
             "histories_ended_by_expected_session_error".into(),
             "corner_accept-for-missing-stream".into(),
         ]
     }
     fn exhaustive_part(&self, tier: Tier) -> Option<String> {
-        Some(format!("all 14^{} operation sequences of length {} over the reduced alphabet (and thereby all shorter ones)", Self::enum_len(tier), Self::enum_len(tier)))
+        Some(format!("all 14^{} operation sequences of length {} over the reduced alphabet (and thereby all shorter ones), and all 14^{} sequences over the two-stream alphabet after the connecting prefix", Self::enum_len(tier), Self::enum_len(tier), Self::enum_len(tier) - 1))
     }
 }
